@@ -330,9 +330,13 @@ def run(ctx, programs, label="eval_tie"):
         # the hypothesis of the termination theorem: accepted programs are stratified (what cycles_check guarantees)
         if so is None or so == "SKIPPED":
             continue
-        if so == "(1 1)":
+        if so.endswith(" 0)"):
+            ctx.broken.append("stratification tie: the recursion check flagged a declaration with parameters (RecursionLink.H_marks): %s" %
+                              json.dumps({"mods": p["mods"], "main": p["main"]})[:1500])
+            ctx.count(label + "_flag_on_function")
+        if so.startswith("(1 1 "):
             ctx.count(label + "_stratified_first_order")
-        elif so == "(0 0)":
+        elif so.startswith("(0 0 "):
             ctx.count(label + "_higher_order_or_alias_application")
         else:
             ctx.broken.append("stratification tie: an accepted first-order program is not stratified (%s): %s" %
